@@ -310,3 +310,54 @@ Proof.
     + intros [H|[H|[H|[]]]]; discriminate.
     + intro H. vm_compute in H. discriminate.
 Qed.
+
+(* ---- names with ".." components that do not climb -------------------------------------------- *)
+
+(* [ups (pstr p) = 0]: read as a relative path the name never goes above its start
+   (a/../b, a/b/../../c); filepath.Join(base, name) cancels the ".." lexically *)
+Lemma ups0_not_climbing : forall p, wfpath p -> ups (pstr p) = 0 -> climbs p = false.
+Proof.
+  intros p W U. unfold climbs.
+  pose proof (models_agree p W) as M. rewrite U in M. simpl in M.
+  destruct (clean_loop false [] p) as [|c r]; [reflexivity|].
+  simpl in M. pose proof (downs_no_dd (pstr p)) as D. rewrite <- M in D.
+  inversion D as [|? ? Hc _]; subst. rewrite is_dd_la. exact Hc.
+Qed.
+
+(* the widened positive complement: every name may contain "..", as long as it does
+   not climb above the base lexically *)
+Theorem dirfs_confined_operational_wide : forall b d o, is_abs b = true ->
+  Forall wfpath (op_names o) -> Forall (fun p => ups (pstr p) = 0) (op_names o) ->
+  d_host (fst (dirfs_step d o)) = d_host d \/
+  exists c, d_host (fst (dirfs_step d o)) = fst (host_step (d_host d) (host_op c)) /\
+            op_names (host_op c) = map hp (op_names c) /\
+            Forall (fun p => climbs p = false /\ ~ In ".." (hp p) /\ under b (dirfs_host_path b (pstr p))) (op_names c).
+Proof.
+  intros b d o HB W N. destruct (step_host_reach d o) as [H | [c [I H]]]; [left; exact H|].
+  right. exists c. split; [exact H|]. split; [apply host_op_names|].
+  apply Forall_forall. intros p Ip. apply I in Ip.
+  rewrite Forall_forall in W, N. specialize (W p Ip). specialize (N p Ip). split; [|split].
+  - apply ups0_not_climbing; assumption.
+  - (* what the host sees has no ".." left *)
+    unfold hp, go_clean, as_path.
+    pose proof (models_agree p W) as M. rewrite N in M. simpl in M.
+    pose proof (downs_no_dd (pstr p)) as D. rewrite <- M in D.
+    intro X.
+    assert (G : forall l, Forall (fun c => is_dd c = false) (map la l) -> ~ In ".." l).
+    { induction l as [|x l IH]; intros F E; [exact E|].
+      inversion F as [|? ? Hx Fl]; subst. destruct E as [E|E].
+      - subst x. rewrite <- is_dd_la in Hx. simpl in Hx. discriminate.
+      - apply IH; assumption. }
+    destruct (clean_loop false [] p) as [|c0 r] eqn:CL.
+    + destruct X as [X|X]; [discriminate | exact X].
+    + apply (G _ D). exact X.
+  - apply dirfs_confined_when_not_climbing; assumption.
+Qed.
+
+Example dirfs_confined_operational_wide_ex :
+  wfpath ["a"; ".."; "b"] /\ ups (pstr ["a"; ".."; "b"]) = 0 /\ hp ["a"; ".."; "b"] = ["b"] /\
+  In ".." ["a"; ".."; "b"].
+Proof.
+  split; [split; [discriminate | repeat constructor; apply no_slashb_iff; reflexivity]|].
+  split; [reflexivity|]. split; [reflexivity|]. right. left. reflexivity.
+Qed.
